@@ -15,9 +15,9 @@ SPECS = {
     "C01": pcheck.PSpec(
         "C01",
         clauses=["Accepts", "RowsMatch", "SpuriousFault", "Compiles", "BookingFault"],
-        profiles={"quick": [("MCQueryGen_core.cfg", None)],
-                  "thorough": [("MCQueryGen_core_t.cfg", None)]},
-        cap={"quick": 900, "thorough": 12000},
+        profiles={"quick": [("MCQueryGen_core.cfg", None), ("MCQueryGen_tuples.cfg", None)],
+                  "thorough": [("MCQueryGen_core_t.cfg", None), ("MCQueryGen_tuples_t.cfg", None), ("MCQueryGen_fault.cfg", None)]},
+        cap={"quick": 1300, "thorough": 16000},
     ),
     "C02": pcheck.PSpec(
         "C02",
